@@ -15,8 +15,14 @@ attributes in every container / through `make_release`, with a DKW bound and an 
 Third family (`_exp_reuse`, budget of the second family): one input object -- a location, a configuration, the arrays of
 the sampling functions, in every container form including single ndarrays -- used several times (groups of one release,
 repeated calls, YAML alias), unchanged or changed by the caller between the calls (array moved in place, file name
-rewritten); every use is judged on its own against a pristine copy of the release area as it was at that use."""
-import importlib, math, io, json
+rewritten); every use is judged on its own against a pristine copy of the release area as it was at that use.
+
+Fourth family (`_exp_range_values`, `_exp_zero_coords`, budget of the second family): the values of the numbers -- bounds of a
+two-element range that are zero, negative zero, negative, tiny, huge, equal, descending, int / float / numpy scalars, on every
+route into get_attr (get_attr, get_attrs, make_release flat / attrs / groups / YAML / release file, with and without seed, large
+and small num != 2); release areas whose coordinates are 0, negative or whole numbers.  Implementation-side oracles only (the
+Lean driver has no operation for these routes; the bit-exact sampling map stays with C03)."""
+import importlib, math, io, json, copy
 from fractions import Fraction as Fr
 import numpy as np
 from .common import RngRecorder
@@ -45,6 +51,23 @@ RULE = ("1..4 disjoint simple polygons (star / comb / triangles, both orientatio
         "containers from a shuffled deck, so every run holds every kind and container; a two-element range "
         "(list / tuple / ndarray / uniform dict) shared the same way; per use: count, every position inside the release area, polygon "
         "shares, a half-plane cut on every polygon + 2, range on 10 bins. "
+        "Fourth family (the VALUES of the numbers; statistical budget of the second family). Two-element ranges [lo, hi] from 13 classes "
+        "dealt from a shuffled deck (every run holds every class, about 4 times in the quick tier): upper bound exactly 0 with int / float / negative-zero "
+        "bounds ([-10, 0], [-2.5, 0.0], [-7.5, -0.0], [-1e6, 0], random), lower bound 0, ranges straddling 0, both bounds negative, both "
+        "positive, tiny (1e-30..1e-9) and huge (1e9..1e100) magnitudes, mixed int / float bounds, degenerate [a, a] (also [0, 0], [-0.0, -0.0]), "
+        "descending [hi, lo], numpy scalar bounds (float64 / float32 / int64 / int32); on 16 routes from a shuffled deck: get_attr with list / "
+        "tuple / ndarray / explicit uniform dict, get_attrs (depth / user key, with a constant and a second range, either key order), "
+        "make_release with the range as implicit depth / implicit user key / attrs user key / attrs depth, 2..3 groups with a range each "
+        "(dict and list configuration), a YAML text, the written release file read back, `columns` option, config seed absent / 0 / 1 / random, "
+        "date or date span, point locations (also [0, 0], negative, -0.0) or small areas; num 2001..2e4 (2e5 thorough) and small groups of "
+        "num = 1, 3, 4, 5, 7, 10, 33 (never 2: then the list is the vector of values) pooled over 120..6000 calls; per array: count, every "
+        "value inside [min(lo,hi), max(lo,hi)] (4 ulp of the larger bound; exactly the point for [a, a]), ten tenths + seven lower quantiles "
+        "(exact binomial), DKW, atoms. Release areas with coordinates 0 / -0.0 / negative / whole numbers (int or float): whole-number shapes "
+        "(square, triangle, L, U, diamond; mirrored, scaled, with a vertex at the origin, an edge on an axis, across it or on the negative "
+        "side) and translated general polygons (a vertex exactly on x = 0 / y = 0, touching an axis from either side, across, negative side), "
+        "1..3 polygons, through latlon_from_poly (lists / arrays), get_location, GeoJSON (Polygon / MultiPolygon), metric offsets (centre "
+        "[0, 0], lon 0, lat 0, -0.0, negative; offsets with vertices at 0 m; lists / arrays) and make_release (with depth [-10, 0]): count, "
+        "polygon shares, half-plane cuts, every position inside, share of the area on either side of x = 0 and of y = 0. "
         "Non-trivial: every statistical experiment.")
 ASSUMPTIONS = ["np.random.rand is uniform on [0,1) (numpy legacy generator, trusted; this layer validates it)",
                "'a.e.-bijection with constant Jacobian maps uniform to uniform' is cited, not formalised",
@@ -1064,6 +1087,518 @@ def _exp_reuse(ctx, mk):
             pass
 
 
+# ============================================================================= fourth family: the VALUES of the numbers
+# The families above vary shapes, containers and patterns of use, but the numbers themselves came from a short list:
+# every range had a non-zero upper bound, every polygon vertex a non-zero coordinate.  Here the values of the bounds of a
+# two-element range (and of the coordinates of a release area) are the dimension that is explored: zero, negative zero,
+# negative, ranges ending / starting at zero or straddling it, integer / float / numpy-scalar bounds, tiny and huge
+# magnitudes, degenerate ranges [a, a], descending ranges; for `depth` and for user attributes, on every route into
+# get_attr, with and without a config seed, for large and small num (num != 2: for num == 2 the code takes the list as
+# the vector of values).  Statistical tests go through binom_ok2 / _count_test (budget of the second family).
+def _pyn(x):
+    """the plain Python number a YAML / JSON file would hold"""
+    if isinstance(x, np.floating):
+        return float(x)
+    if isinstance(x, np.integer):
+        return int(x)
+    return x
+
+
+_RANGE_CLASSES = ["upper_zero_int", "upper_zero_float", "upper_negzero", "lower_zero", "straddle", "negative", "positive",
+                  "tiny", "huge", "mixed_int_float", "degenerate", "descending", "numpy_scalars"]
+
+
+def _range_bounds(rng, cls):
+    """(lo, hi) as written by the user.  Every non-degenerate range spans at least 2^20 doubles (so that the rounding of a
+    value to the next double moves the share of a tenth of the range by less than 1e-5 of itself) and |hi - lo| is finite."""
+    u = rng.uniform
+    if cls == "upper_zero_int":
+        return rng.choice([(-10, 0), (-1, 0), (-300, 0), (-rng.randrange(2, 1000), 0), (-10 ** 6, 0)])
+    if cls == "upper_zero_float":
+        return rng.choice([(-2.5, 0.0), (-10.0, 0.0), (-1e-3, 0.0), (-u(0.1, 500.0), 0.0), (-1e6, 0.0), (-0.5, 0.0)])
+    if cls == "upper_negzero":
+        return rng.choice([(-7.5, -0.0), (-float(rng.randrange(1, 50)), -0.0), (-u(0.1, 5.0), -0.0)])
+    if cls == "lower_zero":
+        return rng.choice([(0, 10), (0.0, 0.25), (-0.0, 3.0), (0, 1), (0.0, u(0.1, 500.0)), (0, rng.randrange(2, 1000))])
+    if cls == "straddle":
+        return rng.choice([(-1, 1), (-5, 5), (-0.5, 2.0), (-100, 0.5), (-1e-3, 2e-3), (-u(0.1, 50.0), u(0.1, 50.0)), (-1000.0, 1e-3)])
+    if cls == "negative":
+        return rng.choice([(-20, -10), (-1e6, -1e5), (-0.75, -0.25), (-3, -1), (-u(50.0, 90.0), -u(1.0, 40.0))])
+    if cls == "positive":
+        return rng.choice([(3, 6), (0.1, 0.2), (100, 350), (u(1.0, 40.0), u(50.0, 90.0))])
+    if cls == "tiny":
+        return rng.choice([(1e-12, 3e-12), (-2e-9, 0.0), (0.0, 1e-30), (-1e-20, 1e-20), (-3e-12, -1e-12), (0, 1e-9)])
+    if cls == "huge":
+        return rng.choice([(1e12, 3e12), (-10 ** 15, 0), (-1e100, 1e100), (0, 10 ** 9), (-1e100, 0.0), (-4e15, -1e15)])
+    if cls == "mixed_int_float":
+        return rng.choice([(-10, 0.0), (-2.5, 0), (0, 0.5), (-1, 1.5), (-0.5, 1), (0.0, 10)])
+    if cls == "degenerate":
+        return rng.choice([(0, 0), (0.0, 0.0), (-0.0, -0.0), (0, 0.0), (5, 5), (-2.5, -2.5), (1e-9, 1e-9), (-10, -10), (0.0, -0.0)])
+    if cls == "descending":
+        return rng.choice([(0, -10), (10, 0), (0.0, -2.5), (6, 3), (1, -1), (-10, -20), (2.5, 0.0)])
+    assert cls == "numpy_scalars"
+    return rng.choice([(np.float64(-4.0), np.float64(0.0)), (np.int64(-10), np.int64(0)), (np.float32(-0.5), np.float32(0.0)),
+                       (np.int32(0), np.int32(8)), (np.float64(-3.0), np.float64(3.0)), (np.int64(-7), np.int64(-2)),
+                       (np.float64(0.0), np.float64(0.0)), (np.float32(0.25), np.float32(0.75))])
+
+
+def _judge_range(ctx, tag, site, v, lo, hi, n, cs, what, stats=True):
+    """The last clause of the property on one array of values of a two-element range [lo, hi] (the range is the closed
+    interval between the two bounds): n values, every value inside the range, and -- for a sample large enough -- the
+    share of every tenth of the range, of the lower 5 / 10 / 25 / 50 / 75 / 90 / 95 % of the range (exact binomial
+    bounds), the distribution function (DKW) and no atoms.  Nothing here calls the implementation."""
+    from scipy.stats import binom
+    v = np.array(v, dtype=float)
+    ctx.oracle(len(v) == n, "C17.%s.count" % tag, site, "%s: %d values for num=%d" % (what, len(v), n), cs)
+    if len(v) != n or n == 0:
+        return
+    a, b = (float(lo), float(hi)) if lo <= hi else (float(hi), float(lo))
+    if a == b:
+        # the range is one point and lo + (hi - lo) * u is exact: every value is that point
+        bad = np.nonzero(~(v == a))[0]
+        ctx.oracle(len(bad) == 0, "C17.%s.outside" % tag, site,
+                   "%s: %d of %d values of the one-point range [%r, %r] differ from %r; first: %r; min %r max %r"
+                   % (what, len(bad), n, lo, hi, a, float(v[bad[0]]) if len(bad) else a, float(np.min(v)), float(np.max(v))), cs)
+        ctx.branch(tag + ".judged_degenerate")
+        return
+    # lo + (hi - lo) * u is evaluated in doubles of the size of the bounds: for u within 2^-53 of 1 the rounded result
+    # can pass the end of the range by a few units in the last place of the larger bound (probability ~1e-16 per value,
+    # but there are 1e7 values per run); anything beyond that is outside the range
+    tol = 4 * float(np.spacing(max(abs(a), abs(b))))
+    bad = np.nonzero(~((v >= a - tol) & (v <= b + tol)))[0]
+    ctx.oracle(len(bad) == 0, "C17.%s.outside" % tag, site,
+               "%s: %d of %d values lie outside the range [%r, %r]; first: %r; observed min %r max %r"
+               % (what, len(bad), n, lo, hi, float(v[bad[0]]) if len(bad) else 0.0, float(np.min(v)), float(np.max(v))), cs)
+    if not stats:
+        return
+    F = (v - a) / (b - a)                          # position within the range, 0..1
+    cnt = np.bincount(np.clip(np.floor(np.clip(F, 0.0, 1.0) * 10), 0, 9).astype(int), minlength=10)
+    for i in range(10):
+        ctx.oracle(binom_ok2(int(cnt[i]), n, 0.1), "C17.%s.uniform" % tag, site,
+                   "%s: tenth %d of the range [%r, %r] holds %d of %d values (expected %.0f)" % (what, i, lo, hi, cnt[i], n, n / 10.0),
+                   dict(cs, counts=cnt.tolist()))
+    for q in (0.05, 0.1, 0.25, 0.5, 0.75, 0.9, 0.95):
+        k = int(np.sum(F <= q))
+        ctx.oracle(binom_ok2(k, n, q), "C17.%s.quantile" % tag, site,
+                   "%s: the lower %g of the range [%r, %r] (up to %r) holds %d of %d values (expected %.0f +- %.0f)"
+                   % (what, q, lo, hi, a + q * (b - a), k, n, n * q, math.sqrt(n * q * (1 - q))), dict(cs, quantile=q, count=k))
+    # distribution function: Dvoretzky-Kiefer-Wolfowitz with Massart's constant, P(sup |F_n - F| > eps) <= 2 exp(-2 n eps^2)
+    _count_test()
+    eps = math.sqrt(math.log(2.0 / (2 * _level())) / (2 * n))
+    Fs = np.sort(F); i = np.arange(1, n + 1)
+    D = float(max(np.max(i / n - Fs), np.max(Fs - (i - 1) / n)))
+    ctx.oracle(D <= eps, "C17.%s.distribution_function" % tag, site,
+               "%s: [%r, %r]: sup |F_n(x) - (x-lo)/(hi-lo)| = %.5f exceeds the DKW bound %.5f (n=%d)" % (what, lo, hi, D, eps, n), cs)
+    # no atoms (as in the second family): repeats are dominated by Binomial(n, n * pmax), pmax the largest mass of one double
+    _count_test()
+    pmax = 2 * max(2.0 ** -53, float(np.spacing(max(abs(a), abs(b)))) / (b - a)) + 2.0 ** -52
+    q = min(1.0, n * pmax)
+    allowed = int(n * q)
+    while q < 1.0 and binom.sf(allowed, n, q) >= 2 * _level():
+        allowed += 1 + allowed // 8
+    allowed = n if q >= 1.0 else allowed
+    rep = n - len(np.unique(v))
+    ctx.oracle(rep <= allowed, "C17.%s.atoms" % tag, site,
+               "%s: [%r, %r]: %d of %d values repeat an earlier value (rounding explains at most %d)" % (what, lo, hi, rep, n, allowed), cs)
+    ctx.branch(tag + ".judged_statistically")
+
+
+_POINTS = [[5.0, 60.0], [0, 0], [0.0, 60], [-70.5, -33.25], [5, 0], [-0.0, 0.0], [-179.5, 0.0], [0, -45]]
+_AREAS = [[[0, 1, 1, 0], [0, 0, 1, 1]], [[-1, 1, 1, -1], [59, 59, 60, 60]], [[-3.0, 0.0, 0.0], [-1.0, -1.0, 0.0]],
+          dict(center=[0, 0], offset=[[-50, 50, 50, -50], [-50, -50, 50, 50]]), dict(center=[5, 60], offset=[[0, 100, 100, 0], [0, 0, 100, 100]])]
+_VIAS = ["list", "tuple", "ndarray", "uniform_dict", "get_attrs_depth", "get_attrs_user", "mr_flat_depth", "mr_flat_user", "mr_attrs_user",
+         "mr_attrs_depth", "mr_groups", "mr_groups_list", "mr_yaml", "mr_file", "pool_get_attr", "pool_make_release"]
+
+
+def _exp_range_values(ctx, mk):
+    import os, tempfile, yaml
+    site = MK + "get_attr"
+    Nbig = ctx.n(20000, 200000); Nmr = ctx.n(20000, 50000)
+    cdeck = []; vdeck = []
+    tmpdir = tempfile.mkdtemp(prefix="verif_c17v_")
+    out_name = os.path.join(tmpdir, "particles.rls")
+
+    def spec_of(lo, hi, form):
+        if form == "list":
+            return [lo, hi]
+        if form == "tuple":
+            return (lo, hi)
+        if form == "ndarray":
+            return np.array([lo, hi])
+        return dict(distribution="uniform", min=lo, max=hi)
+
+    def draw_class():
+        if not cdeck:
+            cdeck.extend(_RANGE_CLASSES); ctx.rng.shuffle(cdeck)
+        return cdeck.pop()
+
+    def draw_range(cls=None):
+        cls = cls or draw_class()
+        lo, hi = _range_bounds(ctx.rng, cls)
+        ctx.branch("values.range_class=" + cls)
+        if hi == 0:
+            ctx.branch("values.upper_bound_zero")
+        if lo == 0:
+            ctx.branch("values.lower_bound_zero")
+        ctx.branch("values.bounds=%s,%s" % (type(lo).__name__, type(hi).__name__))
+        return cls, lo, hi
+
+    try:
+        for c in range(ctx.n(48, 128)):
+            if not vdeck:
+                vdeck.extend(_VIAS); ctx.rng.shuffle(vdeck)
+            via = vdeck.pop()
+            # the classes whose upper bound is zero come up in every block of 13; one case in six asks for one outright
+            cls, lo, hi = draw_range(ctx.rng.choice(["upper_zero_int", "upper_zero_float", "upper_negzero"]) if ctx.rng.random() < 1.0 / 6 else None)
+            ctx.branch("values.via=" + via)
+            cs = dict(experiment="range_values", range_class=cls, lo=_pyn(lo), hi=_pyn(hi), bound_types=[type(lo).__name__, type(hi).__name__], via=via)
+            ctx.case(key=("values", cls, repr(lo), repr(hi), via, c), nontrivial=True,
+                     sample=dict(experiment="range_values", range_class=cls, lo=repr(lo), hi=repr(hi), via=via) if c < 2 else None)
+            # ------------------------------------------------------------ get_attr / get_attrs
+            if via in ("list", "tuple", "ndarray", "uniform_dict"):
+                n = ctx.rng.choice([Nbig, Nbig, Nbig // 2 + 1, 5003])
+                cs = dict(cs, num=n)
+                with RngRecorder(ctx.sub_seed()):
+                    v = mk.get_attr(spec_of(lo, hi, via), n)
+                _judge_range(ctx, "values", site, v, lo, hi, n, cs, "get_attr(%s, %d)" % (via, n))
+                continue
+            if via.startswith("get_attrs"):
+                n = Nbig
+                name = "depth" if via.endswith("depth") else ctx.rng.choice(["age", "weight", "z0", "super"])
+                form = ctx.rng.choice(["list", "list", "tuple", "ndarray", "uniform_dict"])
+                cls2, lo2, hi2 = draw_range()
+                conf = {"region": 0, name: spec_of(lo, hi, form), "other": spec_of(lo2, hi2, "list")}
+                if ctx.rng.random() < 0.5:
+                    conf = dict(reversed(list(conf.items())))
+                cs = dict(cs, num=n, name=name, form=form, other=[_pyn(lo2), _pyn(hi2)], keys=list(conf))
+                ctx.branch("values.name=" + ("depth" if name == "depth" else "user"))
+                with RngRecorder(ctx.sub_seed()):
+                    r = mk.get_attrs(conf, n)
+                _judge_range(ctx, "values", site, r[name], lo, hi, n, cs, "get_attrs: %s" % name)
+                _judge_range(ctx, "values", site, r["other"], lo2, hi2, n, dict(cs, judged="other"), "get_attrs: other")
+                continue
+            if via == "pool_get_attr":
+                # small groups (num != 2), many of them: every value inside the range; pooled they are a sample of the range
+                num = ctx.rng.choice([1, 3, 4, 5, 7, 10])
+                R = -(-6000 // num)
+                form = ctx.rng.choice(["list", "tuple", "ndarray", "uniform_dict"])
+                cs = dict(cs, num=num, calls=R, form=form)
+                ctx.branch("values.num=%d" % num)
+                vals = []
+                with RngRecorder(ctx.sub_seed()):
+                    for _ in range(R):
+                        w = mk.get_attr(spec_of(lo, hi, form), num)
+                        if len(w) != num:
+                            ctx.oracle(False, "C17.values.count", site, "get_attr(%s, %d): %d values" % (form, num, len(w)), cs)
+                        vals.extend(w)
+                _judge_range(ctx, "values", site, vals, lo, hi, len(vals), cs, "%d calls of get_attr(%s, %d), pooled" % (R, form, num))
+                continue
+            # ---------------------------------------------------------------- make_release
+            seed = ctx.rng.choice([None, None, 0, 1, ctx.rng.randrange(2 ** 32)])
+            ctx.branch("values.seed=" + ("absent" if seed is None else ("0" if seed == 0 else "given")))
+            text = via in ("mr_yaml",)
+            plo, phi = (_pyn(lo), _pyn(hi)) if text else (lo, hi)
+            form = "list" if text else ctx.rng.choice(["list", "list", "list", "tuple", "ndarray", "uniform_dict"])
+            if via == "mr_yaml" and ctx.rng.random() < 0.3:
+                form = "uniform_dict"
+            if via in ("mr_flat_depth", "mr_attrs_depth"):
+                name = "depth"
+            else:
+                name = ctx.rng.choice(["depth", "age", "weight", "z0", "super"])
+            ctx.branch("values.name=" + ("depth" if name == "depth" else "user"))
+            in_attrs = via in ("mr_attrs_user", "mr_attrs_depth") or (via not in ("mr_flat_depth", "mr_flat_user") and ctx.rng.random() < 0.4)
+            loc = copy.deepcopy(ctx.rng.choice(_POINTS) if ctx.rng.random() < 0.7 else ctx.rng.choice(_AREAS))
+            date = ctx.rng.choice(["2000-01-01", "2000-01-01 01:00", ["2000-01-01", "2000-01-03"], ["2000-01-01 01:00", "2000-02-01 01:00"]])
+
+            def group(num, lo_, hi_, gid, second):
+                g = dict(num=num, date=date, location=loc, group_id=gid)
+                tgt = g.setdefault("attrs", {}) if in_attrs else g
+                tgt[name] = spec_of(lo_, hi_, form)
+                if second is not None:
+                    g["other"] = [second[0], second[1]]
+                return g
+
+            if via == "pool_make_release":
+                num = ctx.rng.choice([1, 3, 4, 5, 7, 10, 33])
+                R = ctx.n(120, 400)
+                ctx.branch("values.num=%d" % num)
+                cs = dict(cs, num=num, calls=R, name=name, form=form, in_attrs=in_attrs, location=loc, date=date)
+                vals = []
+                seeds = [None if seed is None else (0 if (i == 0 and seed == 0) else ctx.rng.randrange(2 ** 32)) for i in range(R)]
+                with RngRecorder(ctx.sub_seed()):
+                    for i in range(R):
+                        conf = group(num, lo, hi, 1, None)
+                        if seeds[i] is not None:
+                            conf["seed"] = seeds[i]
+                        w = mk.make_release(conf)[name]
+                        if len(w) != num:
+                            ctx.oracle(False, "C17.values.count", site, "make_release: %d values of %s for num=%d" % (len(w), name, num), dict(cs, config=repr(conf)))
+                        vals.extend(w)
+                # 120 calls of 1 value are too few for the shares; the range itself is judged on every value
+                _judge_range(ctx, "values", site, vals, lo, hi, len(vals), dict(cs, config=repr(group(num, lo, hi, 1, None))),
+                             "%d make_release calls with num=%d, values of %s pooled" % (R, num, name), stats=len(vals) >= 1000)
+                continue
+            n = Nmr if ctx.rng.random() < 0.7 else ctx.rng.choice([5003, 2001, Nmr // 2 + 1])
+            judged = []                 # (group id, column, lo, hi, n)
+            if via in ("mr_groups", "mr_groups_list"):
+                ng = ctx.rng.randrange(2, 4)
+                groups = []
+                for gi in range(ng):
+                    if gi == 0:
+                        gl, gh = plo, phi
+                    else:
+                        _, gl, gh = draw_range()
+                        gl, gh = (_pyn(gl), _pyn(gh)) if text else (gl, gh)
+                    _, l2, h2 = draw_range()
+                    groups.append(group(n, gl, gh, gi + 1, (_pyn(l2), _pyn(h2))))
+                    judged.append((gi + 1, name, gl, gh, n)); judged.append((gi + 1, "other", l2, h2, n))
+                conf = groups if via == "mr_groups_list" else dict(groups=groups)
+            else:
+                second = None
+                if ctx.rng.random() < 0.5:
+                    _, l2, h2 = draw_range(); second = (_pyn(l2), _pyn(h2))
+                conf = group(n, plo, phi, 1, second)
+                judged.append((1, name, plo, phi, n))
+                if second is not None:
+                    judged.append((1, "other", second[0], second[1], n))
+            if seed is not None and isinstance(conf, dict):
+                conf["seed"] = seed
+            cols = None
+            if isinstance(conf, dict) and (via == "mr_file" or ctx.rng.random() < 0.25):
+                extra = []
+                for _, col, _, _, _ in judged:
+                    if col not in extra:
+                        extra.append(col)
+                ctx.rng.shuffle(extra)
+                cols = ["date", "longitude", "latitude", "group_id"] + extra
+                conf["columns"] = cols; ctx.branch("values.columns_option")
+            cs = dict(cs, num=n, name=name, form=form, in_attrs=in_attrs, config=repr(conf))
+            fname = out_name if via == "mr_file" else None
+            with RngRecorder(ctx.sub_seed()):
+                if text:
+                    ytext = yaml.safe_dump(conf)
+                    cs = dict(cs, yaml=ytext)
+                    r = mk.make_release(io.StringIO(ytext))
+                elif fname:
+                    r = mk.make_release(conf, fname)
+                else:
+                    r = mk.make_release(conf)
+            if fname:
+                # the release file is what LADiM reads: judge its columns (repr of a double reads back exactly)
+                import pandas as pd
+                tab = pd.read_csv(fname, sep="\t", header=None, names=cols, float_precision="round_trip")
+                os.remove(fname)
+                r = {k: tab[k].tolist() for k in cols}
+                ctx.branch("values.read_from_release_file")
+            gid = np.array(r["group_id"])
+            for g, col, l_, h_, n_ in judged:
+                vals = np.array(r[col], dtype=float)[gid == g]
+                _judge_range(ctx, "values", site, vals, l_, h_, n_, dict(cs, judged=[g, col, _pyn(l_), _pyn(h_)]),
+                             "make_release (%s): %s of group %d" % (via, col, g))
+    finally:
+        try:
+            if os.path.exists(out_name):
+                os.remove(out_name)
+            os.rmdir(tmpdir)
+        except OSError:
+            pass
+
+
+# ----------------------------------------------------------------------------- release areas at / across longitude 0, latitude 0
+_INT_SHAPES = [[(0, 0), (1, 0), (1, 1), (0, 1)], [(0, 0), (2, 0), (0, 1)], [(0, 0), (2, 0), (2, 1), (1, 1), (1, 2), (0, 2)],
+               [(0, 0), (3, 0), (3, 2), (2, 2), (2, 1), (1, 1), (1, 2), (0, 2)], [(0, 0), (2, 1), (0, 2), (-2, 1)]]
+
+
+def _zero_area(rng, metric):
+    """1..3 disjoint simple polygons, one of which has a vertex / an edge on the axis x = 0 and / or y = 0, or lies across
+    it, or lies on the negative side; whole numbers (as a hand-written configuration has them) or doubles.
+    Returns (style, polys, as_int)."""
+    k = rng.randrange(1, 4)
+    if rng.random() < 0.45:
+        # whole-number shapes: scaled and shifted by whole numbers -- exactly simple, exact areas
+        unit = rng.choice([10, 25, 100]) if metric else rng.choice([1, 1, 2, 5])
+        polys = []; x = None
+        for i in range(k):
+            sh = rng.choice(_INT_SHAPES); s = unit * rng.choice([1, 1, 2, 3])
+            p = [(s * a, s * b) for a, b in sh]
+            if rng.random() < 0.5:
+                p = [(-a, b) for a, b in p]
+            if rng.random() < 0.5:
+                p = [(a, -b) for a, b in p]
+            xs = [a for a, _ in p]; ys = [b for _, b in p]
+            if i == 0:
+                # where the first shape sits relative to the axes: a vertex at the origin (as built), an edge on an axis,
+                # across the axis, or away on the negative side
+                dx = rng.choice([0, -min(xs), -max(xs), -(min(xs) + max(xs)) // 2, -max(xs) - 3 * unit])
+                dy = rng.choice([0, -min(ys), -max(ys), -(min(ys) + max(ys)) // 2, -max(ys) - 3 * unit])
+            else:
+                dx = x + unit * rng.randrange(1, 3) - min(xs)       # to the east of the previous one, a gap of >= 1 unit
+                dy = unit * rng.randrange(-4, 3)
+            p = [(a + dx, b + dy) for a, b in p]
+            x = max(a for a, _ in p)
+            polys.append(_finish(rng, p))
+        as_int = rng.random() < 0.6
+        if not as_int:
+            polys = [[(float(a), float(b)) for a, b in p] for p in polys]
+        return "whole_numbers", polys, as_int
+    r = rng.choice([15.0, 50.0, 500.0]) if metric else rng.choice([1e-3, 0.05, 0.3, 2.0])
+    modes = ["vertex_at_zero", "touch_from_positive", "touch_from_negative", "across", "negative_side", "as_is"]
+    while True:
+        mx = rng.choice(modes); my = rng.choice(modes)
+        if (mx, my) != ("as_is", "as_is"):
+            break
+    polys = []; boxes = []
+    while len(polys) < k:
+        if not polys:
+            p = _any_polygon(rng, 0.0, 0.0, r)[1]
+            if len(p) <= 40 and not geom.is_simple(p):
+                continue
+            i = rng.randrange(len(p)); j = rng.randrange(len(p))
+            xs = [a for a, _ in p]; ys = [b for _, b in p]
+
+            def shift(mode, vals, at):
+                if mode == "vertex_at_zero":
+                    return -at
+                if mode == "touch_from_positive":
+                    return -min(vals)
+                if mode == "touch_from_negative":
+                    return -max(vals)
+                if mode == "negative_side":
+                    return -(max(vals) + r * rng.uniform(0.5, 3.0))
+                return 0.0                                             # across (built around 0) / as_is
+            dx = shift(mx, xs, p[i][0]); dy = shift(my, ys, p[j][1])
+            if mx == "as_is":
+                dx = rng.choice([-1, 1]) * r * rng.uniform(3.0, 9.0)
+            if my == "as_is":
+                dy = rng.choice([-1, 1]) * r * rng.uniform(2.0, 6.0)
+            # x + (-x) is exactly 0.0; the other vertices move by the same amount up to one rounding (1e-16 of r)
+            p = [(a + dx, b + dy) for a, b in p]
+            if len(p) <= 40 and not geom.is_simple(p):
+                continue
+        else:
+            rr = r * rng.choice([0.5, 1, 2])
+            p = _any_polygon(rng, rng.uniform(-8, 8) * r, rng.uniform(-5, 5) * r, rr)[1]
+        xs = [a for a, _ in p]; ys = [b for _, b in p]
+        bx = (min(xs), max(xs), min(ys), max(ys))
+        if _disjoint(bx, boxes, 0.05 * r):
+            polys.append(p); boxes.append(bx)
+    if rng.random() < 0.3:
+        # negative zero is the same coordinate
+        polys = [[(-0.0 if a == 0 else a, -0.0 if b == 0 else b) for a, b in p] for p in polys]
+    return "doubles:%s/%s" % (mx, my), polys, False
+
+
+def _exp_zero_coords(ctx, mk):
+    """position clauses of the property for release areas whose coordinates include 0 (Greenwich, the equator, the centre of
+    a metric offset), negative values and whole numbers, on every route"""
+    N = ctx.n(20000, 100000)
+    ring = lambda p: [[x, y] for x, y in p] + [[p[0][0], p[0][1]]]
+    deck = []
+    for c in range(ctx.n(18, 60)):
+        if not deck:
+            deck.extend(["latlon_from_poly", "get_location", "geojson", "offset", "offset", "make_release"]); ctx.rng.shuffle(deck)
+        route = deck.pop()
+        metric = route == "offset"
+        style, polys, as_int = _zero_area(ctx.rng, metric)
+        k = len(polys)
+        num = (lambda t: int(t)) if as_int else (lambda t: float(t))
+        X = [[num(a) for a, _ in p] for p in polys]; Y = [[num(b) for _, b in p] for p in polys]
+        ctx.branch("zero.route=" + route); ctx.branch("zero.style=" + style.split(":")[0]); ctx.branch("zero.npoly=%d" % k)
+        if style.startswith("doubles:"):
+            ctx.branch("zero.x=" + style[8:].split("/")[0]); ctx.branch("zero.y=" + style[8:].split("/")[1])
+        ctx.branch("zero.whole_number_type=int" if as_int else "zero.number_type=float")
+        if any(a == 0 for p in polys for a, _ in p):
+            ctx.branch("zero.vertex_with_x=0")
+        if any(b == 0 for p in polys for _, b in p):
+            ctx.branch("zero.vertex_with_y=0")
+        to_xy = lambda lon, lat: (lon, lat)
+        size = max(max(abs(a), abs(b)) for p in polys for a, b in p)
+        ext = max(max(a for a, _ in p) - min(a for a, _ in p) for p in polys)
+        tol = 1e-9 * ext + 64 * float(np.spacing(size))          # rounding of the convex combination
+        cs = dict(experiment="zero_coords", route=route, style=style, polygons=polys, whole_numbers_as_int=as_int, N=N)
+        ctx.case(key=("zero", route, style, c, repr(polys[0][:3])), nontrivial=True,
+                 sample=dict(experiment="zero_coords", route=route, style=style, npoly=k, N=N) if c < 2 else None)
+        single = k == 1 and ctx.rng.random() < 0.7
+        spec = [X[0], Y[0]] if single else [X, Y]
+        with RngRecorder(ctx.sub_seed()):
+            if route == "latlon_from_poly":
+                site = MK + "latlon_from_poly"
+                if ctx.rng.random() < 0.5:
+                    la, lo_ = ([np.array(b) for b in Y], [np.array(a) for a in X]) if not single else (np.array(Y[0]), np.array(X[0]))
+                else:
+                    la, lo_ = (Y, X) if not single else (Y[0], X[0])
+                lat, lon, _ = mk.latlon_from_poly(la, lo_, N)
+            elif route == "get_location":
+                site = MK + "get_location"
+                cs = dict(cs, location=spec)
+                out = mk.get_location(spec, N); lon, lat = out["longitude"], out["latitude"]
+            elif route == "geojson":
+                site = MK + "get_location_file"
+                if ctx.rng.random() < 0.5:
+                    feats = [dict(type="Feature", properties=dict(fid=1), geometry=dict(type="MultiPolygon", coordinates=[[ring(list(zip(a, b)))] for a, b in zip(X, Y)]))]
+                else:
+                    feats = [dict(type="Feature", properties=dict(fid=i + 1), geometry=dict(type="Polygon", coordinates=[ring(list(zip(a, b)))])) for i, (a, b) in enumerate(zip(X, Y))]
+                doc = json.dumps(dict(type="FeatureCollection", features=feats))
+                cs = dict(cs, geojson=doc)
+                out = mk.get_location(io.StringIO(doc), N); lon, lat = out["longitude"], out["latitude"]
+            elif route == "offset":
+                site = MK + "get_location_offset"
+                cen = ctx.rng.choice([[0, 0], [0.0, 60.0], [5, 0], [0, -45.5], [-0.0, 0.0], [-170.25, 0], [0.0, 0.0], [-20.5, -60], [0, 78]])
+                clon, clat = float(cen[0]), float(cen[1])
+                # several polygons: arithmetic on the whole container needs equal vertex counts -> one polygon unless they agree
+                if k > 1 and len(set(len(p) for p in polys)) > 1:
+                    polys = polys[:1]; X = X[:1]; Y = Y[:1]; k = 1; single = True
+                off = [X[0], Y[0]] if single or k == 1 else [X, Y]
+                if ctx.rng.random() < 0.4:
+                    off = [np.array(off[0]), np.array(off[1])]; ctx.branch("zero.offset_arrays")
+                loc = dict(center=cen, offset=off)
+                cs = dict(cs, polygons=polys, location=dict(center=cen, offset=[np.asarray(off[0]).tolist(), np.asarray(off[1]).tolist()]))
+                ctx.branch("zero.center_lon=0" if clon == 0 else "zero.center_lon!=0"); ctx.branch("zero.center_lat=0" if clat == 0 else "zero.center_lat!=0")
+                out = mk.get_location(loc, N); lon, lat = out["longitude"], out["latitude"]
+                to_xy = lambda lon, lat: _deg_to_m(lon - clon, lat - clat, clat)
+                tol = 1e-6 + 1e-9 * size                                 # as in the third family: degrees carry metres to ~3e-9 m
+            else:
+                site = MK + "make_release"
+                conf = dict(num=N, date="2000-01-01", location=spec, depth=[-10, 0] if ctx.rng.random() < 0.5 else 0)
+                if ctx.rng.random() < 0.5:
+                    conf["seed"] = ctx.rng.choice([0, 1, ctx.rng.randrange(2 ** 32)])
+                cs = dict(cs, config=repr(conf))
+                out = mk.make_release(conf); lon, lat = out["longitude"], out["latitude"]
+                if isinstance(conf["depth"], list):
+                    _judge_range(ctx, "values", MK + "get_attr", out["depth"], -10, 0, N, dict(cs, judged="depth"), "make_release with a polygon location: depth")
+        lon = np.array(lon, dtype=float); lat = np.array(lat, dtype=float)
+        ctx.oracle(len(lon) == N and len(lat) == N, "C17.zero.count", site, "%d positions for num=%d" % (len(lon), N), cs)
+        if len(lon) != N:
+            continue
+        x, y = to_xy(lon, lat)
+        x = np.asarray(x); y = np.asarray(y)
+        fp = [[(float(a), float(b)) for a, b in p] for p in polys]
+        _share_tests(ctx, "zero", site, fp, _bbox_labels(fp, x, y), x, y, N, cs, extra_cuts=2)
+        out_ = np.nonzero(~_inside_any(fp, x, y, tol))[0]
+        ctx.oracle(len(out_) == 0, "C17.zero.outside_polygon", site,
+                   "%d of %d particles lie outside the release area (more than %.3g away from every polygon); first: (%r, %r); positions span x %r..%r, y %r..%r"
+                   % ((len(out_), N, tol) + ((float(x[out_[0]]), float(y[out_[0]])) if len(out_) else (0.0, 0.0)) +
+                      (float(x.min()), float(x.max()), float(y.min()), float(y.max()))), cs)
+        # which side of Greenwich / the equator (of the centre of the offsets): the share of the area on that side
+        A = sum(abs(geom.shoelace(p)) for p in fp)
+        for axis, (a_, b_) in (("x", (1.0, 0.0)), ("y", (0.0, 1.0))):
+            share = 0.0
+            for p in fp:
+                part = geom.clip_halfplane(p, a_, b_, 0.0)
+                share += abs(geom.shoelace(part)) if len(part) >= 3 else 0.0
+            share = min(max(share / A, 0.0), 1.0)
+            if 0.0 < share < 1e-9 or 1.0 - 1e-9 < share < 1.0:
+                ctx.branch("zero.axis_share_not_judged"); continue       # a sliver: rounding decides the side
+            # the whole area on one side (it may touch the axis): no particle beyond the axis by more than rounding;
+            # otherwise the rounding of a particle within `tol` of the axis cannot move a 7.5-sigma bound
+            thr = -tol if share <= 0.0 else (tol if share >= 1.0 else 0.0)
+            cnt = int(np.sum((x if axis == "x" else y) <= thr))
+            ctx.branch("zero.axis_share=%s" % ("0" if share <= 0.0 else ("1" if share >= 1.0 else "between")))
+            ctx.oracle(binom_ok2(cnt, N, share), "C17.zero.axis_share", site,
+                       "the part of the release area with %s <= 0 has area share %.6f and received %d of %d particles (expected %.0f)" % (axis, share, cnt, N, N * share),
+                       dict(cs, axis=axis, share=share, count=cnt))
+
+
 def run(ctx):
     mk = importlib.import_module("ladim_plugins.release.makrel")
     _new_tests[0] = 0
@@ -1129,6 +1664,9 @@ def run(ctx):
     _exp_direct(ctx, mk)
     _exp_ranges(ctx, mk)
     _exp_reuse(ctx, mk)
+    # fourth family (budget of the second family): the values of the bounds / of the coordinates
+    _exp_range_values(ctx, mk)
+    _exp_zero_coords(ctx, mk)
     assert _new_tests[0] <= MAX_TESTS_NEW, "second family: %d tests exceed the Bonferroni count %d" % (_new_tests[0], MAX_TESTS_NEW)
     ctx.note("statistical tests of the second family: %d (per-test level %.2e, family-wise <= %.1e)" % (_new_tests[0], 2 * _level(), ALPHA_NEW))
     # the sampling map itself is pinned bit-exactly (shared with C03)
